@@ -71,9 +71,14 @@ func H20_chain() {
 		return m
 	}
 	edns := nd.Bool()
+	// the client's UDP buffer size is solver-chosen (512 .. 4096): whether an answer has to be
+	// truncated is a solver decision
+	udpSize := nd.Uint16()
+	nd.Assume(udpSize >= 512)
+	nd.Assume(udpSize <= 4096)
 	addOPT := func(m *dns.Msg) {
 		if edns {
-			m.Extra = append(m.Extra, &dns.OPT{Hdr: dns.RR_Header{Name: ".", Rrtype: dns.TypeOPT, Class: 560}})
+			m.Extra = append(m.Extra, &dns.OPT{Hdr: dns.RR_Header{Name: ".", Rrtype: dns.TypeOPT, Class: udpSize}})
 		}
 	}
 	remote := net.IPv4(12, 0, 0, 1)
@@ -142,8 +147,18 @@ func H20_chain() {
 			nd.Assert(len(tcpResp.Answer) >= len(udpResp.Answer), "tcp-has-at-least-the-udp-answers")
 		}
 		if name == "big.z." && qtype == dns.TypeTXT {
-			nd.Assert(udpResp.Truncated, "oversized-udp-response-is-truncated")
 			nd.Assert(len(tcpResp.Answer) == 3, "tcp-carries-all-records")
 		}
+		// truncated exactly when the complete response (the one sent over TCP) does not fit
+		// (sizes are compared in the compressed form, which is what is sent over UDP)
+		complete := tcpResp.Copy()
+		complete.Compress = true
+		full, err := complete.Pack()
+		nd.Assert(err == nil, "tcp-response-packs")
+		limit := 512
+		if edns {
+			limit = int(udpSize)
+		}
+		nd.Assert(udpResp.Truncated == (len(full) > limit), "udp-truncated-iff-the-complete-response-exceeds-the-buffer")
 	}
 }
